@@ -150,6 +150,66 @@ pub fn detector_sets() -> Vec<Vec<&'static str>> {
     ]
 }
 
+/// minimal number of distinct child kinds per slot, from the grammar classes of the holes:
+/// Expression (precedence 14) holes admit all 61 expression kinds, Precedence13 holes 49,
+/// Precedence2 holes 30, Precedence0 / type holes 22; `emit` / `try` admit call forms only and a
+/// name-value attribute literals only; statement-typed slots admit every statement kind.
+pub const EXPECTED_KINDS_PER_SLOT: &[(&str, usize)] = &[
+    ("Base.arg", 61),
+    ("VarDef.init", 61),
+    ("Param.ty", 61),
+    ("NamedArg.expr", 61),
+    ("If.cond", 61),
+    ("While.cond", 61),
+    ("DoWhile.cond", 61),
+    ("For.cond", 61),
+    ("ExprStmt.expr", 61),
+    ("LocalDef.init", 61),
+    ("Return.expr", 61),
+    ("Revert.arg", 61),
+    ("Paren.inner", 61),
+    ("Binary.left", 49),
+    ("Binary.right", 61),
+    ("Ternary.then", 61),
+    ("Ternary.else", 61),
+    ("Subscript.index", 61),
+    ("Slice.lo", 61),
+    ("Slice.hi", 61),
+    ("Call.arg", 61),
+    ("ArrayLit.elem", 61),
+    ("Ternary.cond", 49),
+    ("Unary.operand", 30),
+    ("VarDef.ty", 22),
+    ("VarDecl.ty", 22),
+    ("EventParam.ty", 22),
+    ("ErrorParam.ty", 22),
+    ("TypeDef.ty", 22),
+    ("Using.ty", 22),
+    ("Mapping.key", 22),
+    ("Mapping.value", 22),
+    ("Member.object", 22),
+    ("Subscript.base", 22),
+    ("Slice.base", 22),
+    ("Unit.operand", 22),
+    ("Call.callee", 22),
+    ("CallBlock.callee", 22),
+    ("NamedCall.callee", 22),
+    ("FnAttr.value", 7),
+    ("Emit.expr", 2),
+    ("Try.expr", 3),
+    ("Block.stmt", 15),
+    ("If.then", 15),
+    ("If.else", 15),
+    ("While.body", 15),
+    ("For.body", 15),
+    ("DoWhile.body", 15),
+    ("For.init", 2),
+    ("For.next", 2),
+    ("CallBlock.block", 2),
+    ("SourceUnit.part", 12),
+    ("Contract.part", 9),
+];
+
 pub fn to_node(p: &PtRef) -> Option<Node> {
     match p {
         PtRef::SourceUnit(s) => Some(Node::SourceUnit((*s).clone())),
@@ -431,6 +491,18 @@ pub fn run(tier: Tier) -> i32 {
     for s in crate::rtree::ALL_SLOTS {
         if !slots.contains(s) {
             run.machinery(format!("coverage hole: parse-tree slot {} never visited", s));
+        }
+    }
+    // slot x kind coverage (DESIGN.md 4.5): every slot must have been visited with as many distinct
+    // node kinds as its grammar class admits (weaker-binding kinds enter through a parenthesis)
+    let mut per_slot: BTreeMap<&'static str, HashSet<&'static str>> = BTreeMap::new();
+    for (s, k) in &pairs {
+        per_slot.entry(*s).or_default().insert(*k);
+    }
+    for (slot, min) in EXPECTED_KINDS_PER_SLOT {
+        let got = per_slot.get(slot).map(|x| x.len()).unwrap_or(0);
+        if got < *min {
+            run.machinery(format!("coverage hole: slot {} was visited with {} node kinds, its grammar class admits at least {}", slot, got, min));
         }
     }
     // every node kind must have occurred
